@@ -225,6 +225,8 @@ def run(chk: Check):
     rule_counter(chk, ix)
     rule_newline_neutral(chk, ix)
     rule_n5(chk, ix)
+    from .c01 import rule_is_blank
+    rule_is_blank(chk, "K7-token-filter")   # the one reviewed use of the previous token (a NEWLINE after a NEWLINE) is decided here
     from .c13 import rule_u1
     rule_u1(chk)   # a process-wide cache (of nodes, generators, tokens) is history: what one statement built is handed to the next
     # the line-continuation flag must not leak into the next logical line (C09 K6); flag-setting actions must not be re-run by
